@@ -4,6 +4,7 @@ package main
 // loop cutting.
 
 import (
+	"go/parser"
 	"fmt"
 	"go/ast"
 	"go/types"
@@ -229,6 +230,22 @@ func (x *Exec) callFunction(st *State, fr *Frame, site ssa.Instruction, fn *ssa.
 			c = dc
 			key = dc.Key
 		}
+	}
+	if c == nil && (fn.Pkg == nil || !strings.HasPrefix(fn.Pkg.Pkg.Path(), "github.com/go-netty/")) && typesPkgOf(fn) != nil && !strings.HasPrefix(typesPkgOf(fn).Path(), "github.com/go-netty/") {
+		// a library function or method nobody wrote a contract for: an observed call that may do
+		// anything. What the surrounding contract needs to know about it then fails as a named
+		// obligation (and the call is listed as "default-unknown:<name>" among the assumed contracts).
+		dk := "default-unknown:" + key
+		c = x.cs.Funcs[dk]
+		if c == nil {
+			c = &Contract{Key: dk, Short: shortStem("", key), Assumed: true, Event: true, Modifies: []string{"all"},
+				Loops: map[int]*LoopSpec{}, PureParams: map[string]bool{}}
+			if e, err := parser.ParseExpr("true"); err == nil {
+				c.MayPanic = &Clause{Src: "true", Expr: e}
+			}
+			x.cs.Funcs[dk] = c
+		}
+		key = dk
 	}
 	if c == nil {
 		engineErr("no contract for %s (called from %s)", key, fr.fn)
